@@ -323,3 +323,10 @@ func deepEqIgn(x, y reflect.Value, ign string, seen map[[2]uintptr]bool) bool {
 	}
 	panic("DeepEqualIgnoring: unsupported kind " + x.Kind().String())
 }
+
+// ListeningServer returns the *http.Server that the engine's model has
+// listening on addr (nil natively: native runs talk to the real socket).
+func ListeningServer(addr string) any { return nil }
+
+// ListeningCount is the number of modelled servers listening on addr (engine only).
+func ListeningCount(addr string) int { return 1 }
